@@ -43,7 +43,7 @@ Load(e) ==
   /\ f1' = FoldField("f1", Items(e.f1), El(FieldInit))
   /\ f2' = [FoldField("f2", Items(e.f2), El(FieldInit)) EXCEPT !.present = e.f2present]
   /\ v1' = FoldVariant("v1", Items(e.v1), e.v1style, [El(VariantInit) EXCEPT !.style = e.v1style])
-  /\ v2' = [FoldVariant("v2", Items(e.v2), "unit", El(VariantInit)) EXCEPT !.present = e.v2present]
+  /\ v2' = [FoldVariant("v2", Items(e.v2), IF e.shape = "enum" /\ e.v1style = "struct" /\ e.f2present THEN "struct" ELSE "unit", El(VariantInit)) EXCEPT !.present = e.v2present]
   /\ phase' = "done"
 
 Judged(e) ==
